@@ -8,9 +8,9 @@ UNITS = [
          cap_s=900, stubs=['evaluate_braid'],
          contract='add_commands: on first use the committed heads are copied into the tips and the head-set stamp is captured, together, exactly once, whether or not a command is accepted; '
                   'later calls do not re-read it', **RT),
-    Kani(MT + 'c08_commit_one_tip', fns=[Fn(T, 'commit', TI)], kind='bounded', bound='one tip', cap_s=3000, tiers=('thorough',), stubs=['evaluate_braid'],
-         contract='commit: no stamp => Ok(false), storage untouched; stamp != heads_offset => ConcurrentTransaction before any Write/CommitHeads; else flush then at most one CommitHeads; '
-                  'Ok(true) iff it succeeded and the stamp moved', **RT),
+    Kani(MT + 'c08_commit_stamp_gate', fns=[Fn(T, 'commit', TI)], covers=2, cap_s=600, stubs=['evaluate_braid'],
+         contract='commit, stamp gate (no tips, nothing in flight): no stamp => Ok(false); stamp != heads_offset => ConcurrentTransaction; equal => Ok(false); '
+                  'in all three nothing is written and no heads are committed', **RT),
 ]
 TRUSTED = KT_TRUSTED + ['Storage contract: heads_offset changes on every successful commit_heads (mock enforces it; the linear writer is C15)']
 ASSUMPTIONS = ['"the set of committed commands never shrinks" composes these contracts with C09 bookkeeping: written, not machine-checked',
@@ -18,7 +18,7 @@ ASSUMPTIONS = ['"the set of committed commands never shrinks" composes these con
 EXPLANATION = 'Stamp capture / compare contracts on the real Transaction::{add_commands, commit} for all storage outcomes.'
 MANIFEST = {
     'text': 'Proof at function level: the head-set stamp is captured exactly once, at the moment the committed heads are first read (regardless of what the batch contains), '
-            'and commit refuses with ConcurrentTransaction before touching storage when the stamp differs (thorough tier). The tests exercise one interleaving.',
-    'note': 'Havoc traits; commit with a real tips map is slow in CBMC and runs in the thorough tier only.',
+            'and commit refuses with ConcurrentTransaction before touching storage when the stamp differs (checked on a transaction without tips; commit with a tip does not finish in CBMC within 50 min and is not covered). The tests exercise one interleaving.',
+    'note': 'Havoc traits; commit with a non-empty tips map (flush + CommitHeads ordering) exceeded 3000 s of CBMC time and is not registered.',
     'technique': 'Kani trace contracts over havoc trait implementations (ghost event log) + CBMC',
 }
